@@ -912,6 +912,8 @@ pub struct CompressionLayerFailSafeReader<'a, R: 'a + Read> {
 
 impl<'a, R: 'a + Read> CompressionLayerFailSafeReader<'a, R> {
     pub fn new(inner: Box<dyn 'a + LayerFailSafeReader<'a, R>>) -> Result<Self, Error> {
+        #[cfg(mla_verif)]
+        crate::verif::emit("comp_fs_new", &[]);
         Ok(Self {
             state: CompressionLayerFailSafeReaderState::Ready(inner),
         })
